@@ -68,3 +68,25 @@ Theorem pointpen_roundtrip_quad_blob : forall ps, (2 <= length ps)%nat -> Proofs
   ProofsPointPen.roundtrip [QCurveTo (ps ++ [None]); ClosePath] = Ok [QCurveTo (ps ++ [None]); ClosePath].
 Proof. exact ProofsPointPen.roundtrip_quad_blob. Qed.
 Print Assumptions pointpen_roundtrip_quad_blob.
+
+(* ---- dropImpliedOnCurvePoints on one simple glyph (ModelDrop.v, the code as repaired by 4ed56da) *)
+From FV Require C14.ModelDrop C14.ProofsDrop.
+(* the renumbering loop: every end point moves down by the number of dropped indices at or before it *)
+Theorem drop_endpoints_renumbered : forall drops ends delta, ProofsDrop.sasc drops -> ProofsDrop.asc ends ->
+  (forall d, In d drops -> exists e, In e ends /\ (d <= e)%Z) ->
+  ModelDrop.ends_loop drops ends delta = Ok (map (fun e => (e - delta - ProofsDrop.cnt e drops)%Z) ends).
+Proof. exact ProofsDrop.ends_loop_spec. Qed.
+Print Assumptions drop_endpoints_renumbered.
+
+Theorem dropped_points_are_implied : forall flags coords start last i,
+  In i (ModelDrop.contour_drop flags coords start last) -> ModelDrop.may_drop_at flags coords start last i = true.
+Proof. exact ProofsDrop.dropped_are_implied. Qed.
+Print Assumptions dropped_points_are_implied.
+
+(* F20: a cubic contour that starts with the second handle of a curve keeps an on-curve point *)
+Theorem cubic_contour_keeps_anchor : forall flags coords start last o0 r,
+  filter (fun i => ModelDrop.on_curve (ModelDrop.nthZ flags i)) (ModelDrop.range start (last + 1 - start)) = o0 :: r ->
+  Nat.odd (o0 - start) = true -> ModelDrop.cubic (ModelDrop.nthZ flags start) = true ->
+  exists o, In o (o0 :: r) /\ ~ In o (ModelDrop.contour_drop flags coords start last).
+Proof. exact ProofsDrop.cubic_contour_keeps_anchor. Qed.
+Print Assumptions cubic_contour_keeps_anchor.
